@@ -50,11 +50,11 @@ var startreeCmd = &cobra.Command{
 
 --rooted option is not functional here.
 `,
-	Run: func(cmd *cobra.Command, args []string) {
-		if err := starTree(generateNbTrees, generateNbTips, generateOutputfile); err != nil {
+	RunE: func(cmd *cobra.Command, args []string) (err error) {
+		if err = starTree(generateNbTrees, generateNbTips, generateOutputfile); err != nil {
 			io.LogError(err)
-			return
 		}
+		return
 	},
 }
 
